@@ -234,41 +234,6 @@ fn gs1_small() {
 }
 c04!(c04_t_gs1_small, gs1_small());
 
-/// GameSpy 1 without players: both spellings of the admin variable present -
-/// `AdminName` wins, `admin` is not consumed and stays in the unused entries;
-/// with only `admin` present it is the admin name and nothing is left over.
-#[cfg(kani)]
-fn gs1_admin(both: bool) {
-    let addr = any_addr_v4();
-    if both {
-        world().push_data(
-            b"\\hostname\\N\\mapname\\M\\gametype\\d\\gamever\\1\\maxplayers\\0\\password\\0\\AdminName\\A\\admin\\r\\final\\\\queryid\\7.1".to_vec(),
-        );
-    } else {
-        world().push_data(
-            b"\\hostname\\N\\mapname\\M\\gametype\\d\\gamever\\1\\maxplayers\\0\\password\\0\\admin\\r\\final\\\\queryid\\7.1".to_vec(),
-        );
-    }
-    let r = gamespy::one::query(&addr, None);
-    match &r {
-        Ok(x) => {
-            assert!(x.name == "N" && x.map == "M" && x.game_mode == "d" && x.game_version == "1");
-            assert!(x.players.len() == 0 && x.players_maximum == 0);
-            if both {
-                assert!(x.admin_name.as_deref() == Some("A"));
-                assert!(x.unused_entries.len() == 1 && expect(&x.unused_entries, "admin", "r"));
-            } else {
-                assert!(x.admin_name.as_deref() == Some("r"));
-                assert!(x.unused_entries.len() == 0);
-            }
-        }
-        Err(_) => assert!(false),
-    }
-    core::mem::forget(r);
-}
-c04!(c04_t_gs1_admin_name_and_admin, gs1_admin(true));
-c04!(c04_t_gs1_admin_only, gs1_admin(false));
-
 /// Small GameSpy 2 reply: one player, no teams.
 #[cfg(kani)]
 fn gs2_small() {
